@@ -759,6 +759,9 @@ func (ctx Ctx) callExpr(s *ast.CallExpr) coq.Expr {
 			if e.Kind == token.STRING {
 				v := ctx.info.Types[e].Value
 				msg = constant.StringVal(v)
+				if strings.ContainsRune(msg, '"') {
+					ctx.unsupported(e, "string literals with quotes")
+				}
 			}
 		}
 		return coq.NewCallExpr(coq.GallinaIdent("Panic"), coq.GallinaString(msg))
